@@ -33,7 +33,9 @@ Event ==
   \/ E.ev = "fetch"   /\ \E b \in pend.need : Block4(b) = Block4(E.b) /\ Fetch(b)
   \/ E.ev = "store"   /\ Store(<<E.a[1], E.a[2], E.a[3], E.a[4], E.a[5]>>)
   \/ E.ev = "respond" /\ Respond
-                      /\ reply'.cls = E.cls /\ reply'.status = E.status /\ reply'.reason = E.reason
+                      /\ reply'.cls = E.cls
+                      \* which error a refused request gets is not part of the property
+                      /\ E.cls # "error" => (reply'.status = E.status /\ reply'.reason = E.reason)
                       /\ cached = SetOf(E.cached)
 
 Consume ==
